@@ -364,6 +364,11 @@ DOWNREF:
 
 		switch refable := value.(type) {
 		case *spec.Schema:
+			if refable == nil {
+				// the pointer designates a keyword which is not set on its target (e.g. ".../not")
+				return nil, ErrNoSchema(currentRef.String())
+			}
+
 			if refable.Ref.String() == "" {
 				break DOWNREF
 			}
@@ -376,12 +381,20 @@ DOWNREF:
 			currentRef = refable.Ref
 
 		case *spec.SchemaOrArray:
+			if refable == nil {
+				return nil, ErrNoSchema(currentRef.String())
+			}
+
 			if refable.Schema == nil || refable.Schema != nil && refable.Schema.Ref.String() == "" {
 				break DOWNREF
 			}
 			currentRef = refable.Schema.Ref
 
 		case *spec.SchemaOrBool:
+			if refable == nil {
+				return nil, ErrNoSchema(currentRef.String())
+			}
+
 			if refable.Schema == nil || refable.Schema != nil && refable.Schema.Ref.String() == "" {
 				break DOWNREF
 			}
